@@ -972,6 +972,7 @@ class System(StoredHw, Datetime, Logbook, SystemBase):
         """
 
         _schema: dict[str, Any]
+        zone_idxs = list(SCH_TCS(schema).get(SZ_ZONES) or {})  # incl. zones with no attrs
         schema = shrink(SCH_TCS(schema))
 
         if schema.get(SZ_SYSTEM) and (
@@ -985,8 +986,8 @@ class System(StoredHw, Datetime, Logbook, SystemBase):
         if not isinstance(self, MultiZone):
             return
 
-        if _schema := (schema.get(SZ_ZONES)):  # type: ignore[assignment]
-            [self.get_htg_zone(idx, **s) for idx, s in _schema.items()]
+        _schema = schema.get(SZ_ZONES, {})  # type: ignore[assignment]
+        [self.get_htg_zone(idx, **_schema.get(idx, {})) for idx in zone_idxs]
 
     @classmethod
     def create_from_schema(cls, ctl: Controller, **schema: Any) -> System:
